@@ -1157,3 +1157,199 @@ func originsOf(v ssa.Value, depth int, bind map[*ssa.Parameter]ssa.Value) []orig
 	}
 	return out
 }
+
+// callCtx is one calling context of a block: the branch conditions that hold
+// there (in its function, in the literal's creator, and up the chain of private
+// helpers to the caller), and what each helper parameter on the way is bound to.
+type callCtx struct {
+	Conds []facts.Cond
+	Bind  map[*ssa.Parameter]ssa.Value
+}
+
+// up: v with helper parameters (also through the spill cell of a struct-valued
+// parameter) replaced by the arguments of this context.
+func (cx callCtx) up(v ssa.Value) ssa.Value {
+	for d := 0; d < 5; d++ {
+		r := facts.ResolveFree(v)
+		if u, ok := r.(*ssa.UnOp); ok && u.Op == token.MUL {
+			if al, ok := u.X.(*ssa.Alloc); ok {
+				if p := facts.SpillOfParam(al); p != nil {
+					r = p
+				}
+			}
+		}
+		if al, ok := r.(*ssa.Alloc); ok {
+			if p := facts.SpillOfParam(al); p != nil {
+				r = p
+			}
+		}
+		p, ok := r.(*ssa.Parameter)
+		if !ok {
+			return v
+		}
+		a, ok := cx.Bind[p]
+		if !ok {
+			return v
+		}
+		v = a
+	}
+	return v
+}
+
+// contextsOf enumerates the calling contexts of block b: one if b's function
+// is not a private helper, otherwise one per chain of call sites (depth
+// bounded; beyond the bound the helper's own conditions are all that is known).
+func contextsOf(b *ssa.BasicBlock, depth int) []callCtx {
+	own := facts.CondsAtDeep(b)
+	h := outermost(b.Parent())
+	sites := privateCallSites(h)
+	if depth <= 0 || len(sites) == 0 {
+		return []callCtx{{Conds: own, Bind: map[*ssa.Parameter]ssa.Value{}}}
+	}
+	var out []callCtx
+	for _, s := range sites {
+		if len(s.Common().Args) != len(h.Params) {
+			continue
+		}
+		for _, up := range contextsOf(s.Block(), depth-1) {
+			cx := callCtx{Bind: map[*ssa.Parameter]ssa.Value{}}
+			cx.Conds = append(append(cx.Conds, own...), up.Conds...)
+			for k, v := range up.Bind {
+				cx.Bind[k] = v
+			}
+			for i, p := range h.Params {
+				cx.Bind[p] = s.Common().Args[i]
+			}
+			out = append(out, cx)
+			if len(out) > 64 {
+				return out
+			}
+		}
+	}
+	if len(out) == 0 {
+		return []callCtx{{Conds: own, Bind: map[*ssa.Parameter]ssa.Value{}}}
+	}
+	return out
+}
+
+// withPhiImplied: conds plus what a test on a phi implies: `ph != K` (or the
+// false branch of `ph == K`) rules out the edges that carry the constant K; if
+// exactly one edge remains, the conditions under which the phi took that edge
+// hold too.
+func withPhiImplied(conds []facts.Cond) []facts.Cond {
+	out := conds
+	for _, cd := range conds {
+		x, op, y, ok := facts.Cmp(cd)
+		if !ok || op != token.NEQ {
+			continue
+		}
+		ph, isPhi := facts.Resolve(x).(*ssa.Phi)
+		k, isK := facts.Resolve(y).(*ssa.Const)
+		if !isPhi || !isK || k.Value == nil {
+			continue
+		}
+		var left []int
+		for i, e := range ph.Edges {
+			if ec, ok := facts.Resolve(e).(*ssa.Const); ok && ec.Value != nil && ec.Value.ExactString() == k.Value.ExactString() {
+				continue
+			}
+			left = append(left, i)
+		}
+		if len(left) == 1 {
+			out = append(out, facts.CondsAt(ph.Block().Preds[left[0]])...)
+		}
+	}
+	return out
+}
+
+// forEachCondImplied calls f for every condition known on entry to b: the
+// dominating branch conditions and — when one of them says that a private
+// helper returned a nil error (or true) — the conditions that hold at EVERY
+// such return of that helper (compared by term and polarity), evaluated with
+// the helper's parameters standing for the call's arguments, recursively.
+func forEachCondImplied(b *ssa.BasicBlock, depth int, f func(cd facts.Cond)) {
+	for _, cd := range facts.CondsAt(b) {
+		f(cd)
+		if depth <= 0 {
+			continue
+		}
+		var call *ssa.Call
+		idx := 0
+		wantNil, wantTrue := false, false
+		if x, isNil, ok := facts.NilCheck(cd); ok && isNil {
+			switch y := facts.Resolve(x).(type) {
+			case *ssa.Call:
+				call = y
+			case *ssa.Extract:
+				call, _ = y.Tuple.(*ssa.Call)
+				idx = y.Index
+			}
+			wantNil = true
+		} else if cd.Pos {
+			switch y := facts.Resolve(cd.V).(type) {
+			case *ssa.Call:
+				call = y
+			case *ssa.Extract:
+				call, _ = y.Tuple.(*ssa.Call)
+				idx = y.Index
+			}
+			wantTrue = true
+		}
+		if call == nil {
+			continue
+		}
+		h := call.Call.StaticCallee()
+		if h == nil || h.Blocks == nil || len(privateCallSites(h)) == 0 || len(call.Call.Args) != len(h.Params) {
+			continue
+		}
+		key := func(cd facts.Cond) string {
+			if cd.Pos {
+				return "+" + facts.Term(cd.V)
+			}
+			return "-" + facts.Term(cd.V)
+		}
+		var common map[string]facts.Cond
+		n := 0
+		for _, r := range returnsOf(h) {
+			if idx >= len(r.Results) {
+				continue
+			}
+			rv := facts.RetVal(r, idx)
+			if wantNil {
+				if facts.ProvablyNonNil(rv, r.Block()) {
+					continue // not a nil return
+				}
+			}
+			if wantTrue {
+				if cst, ok := rv.(*ssa.Const); ok && cst.Value != nil && cst.Value.ExactString() == "false" {
+					continue
+				}
+			}
+			n++
+			here := map[string]facts.Cond{}
+			forEachCondImplied(r.Block(), depth-1, func(c2 facts.Cond) { here[key(c2)] = c2 })
+			if common == nil {
+				common = here
+			} else {
+				for k := range common {
+					if _, ok := here[k]; !ok {
+						delete(common, k)
+					}
+				}
+			}
+		}
+		if n == 0 || len(common) == 0 {
+			continue
+		}
+		var ks []string
+		for k := range common {
+			ks = append(ks, k)
+		}
+		sort.Strings(ks)
+		withParams(h, call, func() {
+			for _, k := range ks {
+				f(common[k])
+			}
+		})
+	}
+}
